@@ -980,6 +980,42 @@ def _generate_validator_expression_for(field_ir, ir):
     return result
 
 
+def _render_range_test_for_virtual_field(variable, logical_type, expression):
+    """Renders a C++ test that `variable` is a possible value of `expression`.
+
+    A value outside the inferred bounds of a virtual field cannot be produced by
+    any value of the field it is computed from, so it can never be written.
+    Testing this before the inverse transform is evaluated also guarantees that
+    the transform's arithmetic (which is carried out in a type chosen for
+    in-range values only) cannot overflow.
+    """
+    limits = {
+        "::std::int32_t": (-(2**31), 2**31 - 1),
+        "::std::uint32_t": (0, 2**32 - 1),
+        "::std::int64_t": (-(2**63), 2**63 - 1),
+        "::std::uint64_t": (0, 2**64 - 1),
+    }
+    if expression.type.which_type != "integer" or logical_type not in limits:
+        return "true"
+    clauses = []
+    type_minimum, type_maximum = limits[logical_type]
+    minimum = expression.type.integer.minimum_value
+    maximum = expression.type.integer.maximum_value
+    if minimum not in (None, "", "-infinity") and int(minimum) > type_minimum:
+        clauses.append(
+            "{} >= static_cast</**/{}>({})".format(
+                variable, logical_type, _render_integer(int(minimum))
+            )
+        )
+    if maximum not in (None, "", "infinity") and int(maximum) < type_maximum:
+        clauses.append(
+            "{} <= static_cast</**/{}>({})".format(
+                variable, logical_type, _render_integer(int(maximum))
+            )
+        )
+    return " && ".join(clauses) or "true"
+
+
 def _generate_structure_virtual_field_methods(enclosing_type_name, field_ir, ir):
     """Generates C++ code for methods for a single virtual field.
 
@@ -1039,6 +1075,9 @@ def _generate_structure_virtual_field_methods(enclosing_type_name, field_ir, ir)
             logical_type=logical_type,
             destination=destination,
             transform=transform,
+            value_in_range=_render_range_test_for_virtual_field(
+                "emboss_reserved_local_value", logical_type, field_ir.read_transform
+            ),
         )
     else:
         write_methods = ""
